@@ -12,6 +12,7 @@ pub mod c03;
 pub mod c04;
 pub mod c05;
 pub mod c06;
+pub mod c07;
 pub mod c08;
 pub mod c09;
 pub mod c10;
@@ -24,6 +25,7 @@ pub mod c15;
 pub mod c16;
 pub mod c17;
 pub mod c18;
+pub mod c19;
 pub mod c20;
 
 pub fn meta(args: &Args, rule: &str, assumptions: &[&str]) -> Meta {
@@ -57,11 +59,13 @@ pub fn dispatch(args: &Args) -> i32 {
         "C04" => c04::run(args),
         "C05" => c05::run(args),
         "C06" => c06::run(args),
+        "C07" => c07::run(args),
         "C08" => c08::run(args),
         "C15" => c15::run(args),
         "C16" => c16::run(args),
         "C17" => c17::run(args),
         "C18" => c18::run(args),
+        "C19" => c19::run(args),
         "C20" => c20::run(args),
         other => {
             eprintln!("unknown check {other}");
